@@ -61,6 +61,13 @@ def run(chk):
     if chk.want("R10.10"):
         from ..inherit import inherit
         inherit(chk, "R10.10", "c01", ["R01.2", "R01.3", "R01.4"])
+    chk.rule("R10.11", "writing a file leaves the crystal as it was: the writers (and the functions they hand the crystal to) modify neither the crystal "
+                       "nor the cached data its queries return, so a second export equals the first (= C14 R14.3, writer methods)", 3)
+    if chk.want("R10.11"):
+        from ..inherit import inherit
+        writers = {"Crystal.to_poscar_string", "Crystal.to_cif_data", "Crystal.to_cif_string", "Crystal.to_cif_file", "Crystal.to_shelx_string",
+                   "Crystal.to_shelx_file", "Crystal.save", "Crystal.to_poscar_file", "poscar_string", "to_res_contents"}
+        inherit(chk, "R10.11", "c14", ["R14.3"], functions=writers)
     chk.assume("numeric equality 'to the written precision' and parsing of arbitrary label strings are not decided")
     chk.assume("the SHELX writer does not carry occupancies (the format clause 'where the format carries them')")
     chk.assume("LATT/SYMM soundness is C02 (R02.3-R02.5); CIF text round trip is C15; symmetry-operation strings are C11 (R11.7)")
@@ -115,12 +122,43 @@ def r10_1(chk, repo, cr):
     for k in required:
         chk.ob("R10.1", CR, rq, f"required key '{k}' is written by to_cif_data", k in w, fingerprint=f"required:{k}", found=sorted(w))
     for k in sorted(w):
-        if k in ("audit_creation_method", "symmetry_equiv_pos_site_id"):
+        if k == "audit_creation_method":
             continue
+        va = w[k].as_atom()
+        if k.endswith("_id") and va and va[0] == "call" and call_name(va) == "list" and va[2] and call_name(va[2][0].as_atom() or ()) == "range":
+            continue            # a running number 1..n next to a list: carries no data of the crystal
         chk.ob("R10.1", CR, "Crystal.to_cif_data", f"written key '{k}' is one the reader looks for", k in read, fingerprint=f"written:{k}",
                found=sorted(read))
     chk.ob("R10.1", CR, rq, "the operations are written under one of the names the reader tries",
            any(k in w for k in tried), found=f"tried {tried}")
+    # alternative names: `for k in (A, B): if k in data: use data[k]; break` takes the FIRST name present.  The exported dictionary is
+    # the retained one updated with the fresh items, so a stale alternative stays in it: the name the writer refreshes must be the one the
+    # reader tries first (or the stale one wins on reading back)
+    import ast as _ast
+    fn = getattr(rev, "fn", None) or cr.funcs[rq]
+    tuples = {}
+    for n in _ast.walk(fn):
+        if isinstance(n, _ast.Assign) and len(n.targets) == 1 and isinstance(n.targets[0], _ast.Name) and isinstance(n.value, (_ast.Tuple, _ast.List)) \
+                and n.value.elts and all(isinstance(x, _ast.Constant) and isinstance(x.value, str) for x in n.value.elts):
+            tuples[n.targets[0].id] = [x.value for x in n.value.elts]
+    for n in _ast.walk(fn):
+        if not (isinstance(n, _ast.For) and isinstance(n.target, _ast.Name)):
+            continue
+        if isinstance(n.iter, (_ast.Tuple, _ast.List)) and all(isinstance(x, _ast.Constant) and isinstance(x.value, str) for x in n.iter.elts):
+            group = [x.value for x in n.iter.elts]
+        elif isinstance(n.iter, _ast.Name) and n.iter.id in tuples:
+            group = tuples[n.iter.id]
+        else:
+            continue
+        first = n.body[0] if n.body else None
+        takes_first = isinstance(first, _ast.If) and any(isinstance(x, _ast.Break) for x in _ast.walk(first)) and \
+            isinstance(first.test, _ast.Compare) and isinstance(first.test.ops[0], _ast.In) and isinstance(first.test.left, _ast.Name) \
+            and first.test.left.id == n.target.id
+        written = [k for k in group if k in w]
+        if takes_first and written and len(group) > 1:
+            chk.ob("R10.1", CR, rq, f"of the alternative names {group} the reader tries first the one the writer refreshes ({written[0]!r}): a stale "
+                   "alternative retained in the exported dictionary must not win on reading back", group[0] in w, node=n,
+                   fingerprint=f"alternatives:{written[0]}", expected=f"{written[0]!r} first", found=f"tried in the order {group}")
     # axis agreement
     uc = P.atom(("attr", P.name("self"), "unit_cell"))
     for ax, nm in enumerate("abc"):
